@@ -157,7 +157,15 @@ def call_entry(entry, n, name):
     """Returns True if the entry point serves (n, name), False if it rejects."""
     from .. import impl
     sc, mc, cs, tm = impl.stabilizer_circuits, impl.mub_circuits, impl.connectivity_support, impl.tomography
-    zstab = (lambda: impl.Stabilizer(["I" * q + "Z" + "I" * (n - 1 - q) for q in range(n)]))
+    _made = []
+
+    def zstab():
+        st = impl.Stabilizer([("-" if q % 2 else "+") + "I" * q + "Z" + "I" * (n - 1 - q) for q in range(n)])
+        _made.append((st, st.to_list(), st.R.copy(), st.S.copy()))
+        return st
+
+    def unchanged():
+        return all(st.to_list() == lst and (st.R == R).all() and (st.S == S).all() for st, lst, R, S in _made)
     try:
         if entry == "prep":
             sc.get_preparation_circuit(zstab(), name)
@@ -193,16 +201,18 @@ def call_entry(entry, n, name):
     except KeyError:
         if entry not in ENTRIES:
             raise
-        return False
+        return False if unchanged() else "modified"
     except Exception:      # noqa: BLE001
-        return False
-    return True
+        return False if unchanged() else "modified"
+    return True if unchanged() else "modified"
 
 
 def judge_gate(entry, n, name):
     if n == 0 and entry in ("prep", "readout", "measurement", "measurement_subset"):
         return None        # no stabilizer object on zero qubits can be built to make the request
     served = call_entry(entry, n, name)
+    if served == "modified":
+        return "%s (n=%d, connectivity=%r) changed the stabilizer object passed in" % (entry, n, name)
     want = (n, name) in M.CONFIGS
     if served != want:
         return "%s %s (n=%d, connectivity=%r), which is %s advertised pair" % (
